@@ -328,7 +328,17 @@ def shard(a):
     elif kind == 'guess_country':
         x = st.one_of(base, prefixed(EU_GUESS, base, a['cc']))
     elif kind == 'iban':
-        x = st.one_of(base, gen.decorations(src, base), gen.edits(valid))
+        @st.composite
+        def generic_only(draw):
+            # an IBAN that satisfies the generic rules but (most likely) not the national ones: one BBAN character of a valid
+            # number changed within its class and the IBAN check digits recomputed
+            v = draw(valid)
+            i = draw(st.integers(4, len(v) - 1))
+            al = gen.cls(v[i]) or '0123456789'
+            w = v[:i] + draw(st.sampled_from(al)) + v[i + 1:]
+            val = int(''.join(str(int(c, 36)) for c in w[4:] + w[:2] + '00')) % 97
+            return w[:2] + '%02d' % (98 - val) + w[4:]
+        x = st.one_of(base, gen.decorations(src, base), gen.edits(valid), generic_only(), generic_only())
     else:
         x = st.one_of(base, gen.decorations(src, base), gen.edits(valid))
     strat = st.builds(lambda xx: {'rel': rel, 'x': core.enc(xx)}, x)
